@@ -156,10 +156,17 @@ func runMaintPassCase(seed uint64, k, idx int) {
 			}
 		}
 	}
-	// the bucket the pass ends at
-	switch r.intn(5) {
+	// the bucket the pass ends at.  Two cases out of three carry a stale twin entry (below): their last bucket keeps
+	// room for it and holds a good contact for it to sit beside, so that the twin is certainly pinged in this pass
+	forceTwin := k%3 != 0
+	needy := r.intn(5)
+	if forceTwin {
+		needy = []int{0, 4}[r.intn(2)]
+		mk(depth, 'g', false)
+	}
+	switch needy {
 	case 0: // a free slot (possibly an empty bucket)
-		for i, n := 0, r.intn(8); i < n; i++ {
+		for i, n := 0, r.intn(map[bool]int{true: 6, false: 8}[forceTwin]); i < n; i++ {
 			mk(depth, []byte{'g', 'a', 'n'}[r.intn(3)], r.bool())
 		}
 	case 1: // full, one questionable entry will not answer
@@ -185,7 +192,7 @@ func runMaintPassCase(seed uint64, k, idx int) {
 			mk(depth, []byte{'g', 'a', 'n', 'b', 'B'}[r.intn(5)], r.bool())
 		}
 	default: // a few entries of every kind
-		for i, n := 0, 1+r.intn(6); i < n; i++ {
+		for i, n := 0, 1+r.intn(map[bool]int{true: 5, false: 6}[forceTwin]); i < n; i++ {
 			mk(depth, []byte{'g', 'a', 'n', 'b', 'B'}[r.intn(5)], r.bool())
 		}
 	}
@@ -220,7 +227,7 @@ func runMaintPassCase(seed uint64, k, idx int) {
 			perBucket[b]++
 			// the host is silent during the pass, or it answers pings - under its NEW id: the ping of the stale entry
 			// "succeeds" (no failed flag) without the stale entry having answered (it stays questionable)
-			y.answers, y.fanswers = r.bool(), false
+			y.answers, y.fanswers = k%3 == 1, false // k%3 == 1: the host answers under its new id; k%3 == 2: it is silent
 			nodes = append(nodes, &mpNode{speer: speer{addr: y.addr, id: idInBucket(r, root, b)}, class: 'n', twin: true, answers: y.answers})
 		}
 	}
